@@ -4,6 +4,7 @@ import (
 	"go/ast"
 	"go/token"
 	"go/types"
+	"strings"
 
 	"verif/checker/core"
 )
@@ -249,5 +250,79 @@ func c09R6(c *Ctx, rule string) {
 	}
 	if n == 0 {
 		r.OK(rule, "data-mid|computed-in-place", "-", "the data section's id expression is evaluated in the append itself")
+	}
+}
+
+// c09R8: "in every later offer or answer its m-section keeps the same position; new transceivers are appended after
+// existing sections". generateMatchedSDP consumes the local transceiver list with findByMid / satisfyTypeAndDirection and
+// appends what is LEFT, in list order, as the unmatched sections: the helpers must hand back the remaining list in its
+// original order. Every return of these two helpers gives, as the remaining list, the list parameter itself or
+// append(l[:i], l[i+1:]...) of it, and neither writes an element of the list (a swap-with-last removal reorders the
+// remainder, so an m-section moves between successive offers).
+func c09R8(c *Ctx, rule string) {
+	r := c.R
+	for _, name := range []string{"findByMid", "satisfyTypeAndDirection"} {
+		fi := c.mustFunc(rule, "", name)
+		if fi == nil {
+			continue
+		}
+		info := fi.Pkg.TypesInfo
+		sig := fi.Obj.Type().(*types.Signature)
+		var list *types.Var
+		for i := 0; i < sig.Params().Len(); i++ {
+			if _, ok := sig.Params().At(i).Type().Underlying().(*types.Slice); ok {
+				list = sig.Params().At(i)
+			}
+		}
+		key := name + "|remaining-list-keeps-its-order"
+		pos := c.P.Pos(fi.Decl.Pos())
+		if list == nil || sig.Results().Len() != 2 {
+			r.Undecided(rule, key, pos, "expected (element, remaining list) results and a slice parameter")
+			continue
+		}
+		var bad []string
+		ast.Inspect(fi.Decl.Body, func(x ast.Node) bool {
+			switch s := x.(type) {
+			case *ast.AssignStmt:
+				for _, l := range s.Lhs {
+					if ix, ok := ast.Unparen(l).(*ast.IndexExpr); ok && core.VarOf(info, ix.X) == list {
+						bad = append(bad, "an element of the list is overwritten at "+c.P.Pos(s.Pos()))
+					}
+					if core.VarOf(info, l) == list {
+						bad = append(bad, "the list parameter is reassigned at "+c.P.Pos(s.Pos()))
+					}
+				}
+			case *ast.ReturnStmt:
+				if len(s.Results) != 2 {
+					return true
+				}
+				e := ast.Unparen(s.Results[1])
+				if core.VarOf(info, e) == list {
+					return true
+				}
+				ok := false
+				if call, isCall := e.(*ast.CallExpr); isCall && len(call.Args) == 2 && call.Ellipsis.IsValid() {
+					if id, isID := call.Fun.(*ast.Ident); isID && id.Name == "append" {
+						a, aok := ast.Unparen(call.Args[0]).(*ast.SliceExpr)
+						b, bok := ast.Unparen(call.Args[1]).(*ast.SliceExpr)
+						if aok && bok && core.VarOf(info, a.X) == list && core.VarOf(info, b.X) == list && a.Low == nil && a.High != nil && b.High == nil && b.Low != nil {
+							iv := core.VarOf(info, a.High)
+							if be, isBin := ast.Unparen(b.Low).(*ast.BinaryExpr); isBin && be.Op == token.ADD && iv != nil && core.VarOf(info, be.X) == iv {
+								if tv, has := info.Types[be.Y]; has && tv.Value != nil && tv.Value.ExactString() == "1" {
+									ok = true
+								}
+							}
+						}
+					}
+				}
+				if !ok {
+					bad = append(bad, "the remaining list returned at "+c.P.Pos(s.Pos())+" is `"+exprStr(e)+"`, not the list itself or append(l[:i], l[i+1:]...)")
+				}
+			}
+			return true
+		})
+		r.Cells++
+		r.Check(len(bad) == 0, rule, key, pos, "the remaining list is the parameter or an order-preserving removal of one element",
+			strings.Join(bad, "; ")+": generateMatchedSDP appends the remaining transceivers in list order, so a reordered remainder moves an m-section to another position between successive offers")
 	}
 }
